@@ -58,6 +58,12 @@ def body(c):
                                    "nscales": 4 if c.quick else 7, "random": 300 if c.quick else 3000}, timeout=3000)["traces"]
     wres = c.validate("Trace_QNum", wide, chunk=24, constants=devs, timeout=1500)
     c.judge(wide, wres, describe=lambda tr: {k: tr[0].get(k) for k in ("qt", "fmt", "axis", "shape", "tag", "route")})
+    # the repository's own tests as a driver: every call of the symmetric quantizer they make is validated as well
+    rec = [t for t in c.record_repo_tests(["test/tensor/quantizers", "test/nn/test_qlinear.py"] if c.quick else ["test"], limit=250 if c.quick else 1500)
+           if t[0]["act"] == "SymW"]
+    rres = c.validate("Trace_QNum", rec, chunk=24, constants=devs, timeout=1500)
+    c.judge(rec, rres, describe=lambda tr: {k: tr[0].get(k) for k in ("qt", "fmt", "axis", "shape", "tag", "test")})
+    c.extra["repo_tests_recorded"]["symmetric_quantizer_calls_validated"] = len(rec)
     c.extra["wide_events"] = len(wide)
     c.extra["wide_elements"] = sum(len(t[0]["x"]) for t in wide)
     c.extra["wide_excluded_unrepresentable_grid_points"] = sum(t[0]["nonfinite_dq"] for t in wide)
